@@ -79,7 +79,7 @@ def main():
                     mod = os.path.join(target, "pymod")
                     os.makedirs(mod, exist_ok=True)
                     shutil.copy(os.path.join(target, "debug", "libivp.so"), os.path.join(mod, "ivp.so"))
-                    rc, out = sh(["/opt/veriftools/pyvenv/bin/python", os.path.join(src, "demo.py"), mod], cwd=wt)
+                    rc, out = sh(["/opt/veriftools/pyvenv/bin/python", os.path.join(src, "demo.py"), mod], cwd=wt, env=dict(ENV, PYTHONPATH=mod))
                     return rc == 0, out[-1200:]
             else:
                 shutil.copy(os.path.join(src, "demo.rs"), os.path.join(wt, "tests", "seed_demo.rs"))
